@@ -764,8 +764,8 @@ Proof.
     cbn [lstep] in L. destruct (N.ltb_spec ob (l_ns ls)) as [Hlt|]; cbn [andb] in L; [|discriminate].
     destruct (negb (memN wt (l_used ls))); [|discriminate]. injection L as <-.
     cbn [x_op]. destruct (get_s ob (base xs)) as [x|] eqn:G; [|exfalso; now apply (r_sex _ _ R ob Hlt)].
-    destruct (tfind (sclosing xs) ob); (eexists; eexists; split; [reflexivity|]; split; [|reflexivity];
-      apply (Rel_frame ls _ xs _ R); auto).
+    destruct (s_state x) as [[]|]; try destruct (tfind (sclosing xs) ob);
+      (eexists; eexists; split; [reflexivity|]; split; [|reflexivity]; apply (Rel_frame ls _ xs _ R); auto).
   - (* acknowledgement *)
     cbn [lstep] in L. injection L as <-. cbn [x_op].
     destruct (cmds xs) as [|[ob wt ok|ob wt ok] q].
